@@ -154,6 +154,12 @@ def gen_full_history(rng, maxlen, want_singular=None, throwing=False, multi=Fals
         r = rng.random()
         if multi and r < 0.12:
             k = rng.randrange(len(order))
+            # a per-row artefact of q_bb must not survive reset(A', b') (seeded/C03-seed4: `aq = A_row(i)*Q0` cached by
+            # row index): half of the resets are bracketed by q_bb(i, .) of the SAME row i, nothing else in between
+            same_row = None
+            if rng.random() < 0.5:
+                same_row = rng.randint(1, min(m, order[k]["m"]))
+                qs.append("qbb %d %d" % (same_row, rng.randint(1, m)))
             cur = order[k]
             qs.append(f"reset_new {k + 1}")
             if not _valid_for(cur, cfg):               # the caller re-configures the regularisation for the new system
@@ -164,6 +170,8 @@ def gen_full_history(rng, maxlen, want_singular=None, throwing=False, multi=Fals
                 else:
                     cfg = "all"
                     qs.append("min_x_all")
+            if same_row is not None:
+                qs.append("qbb %d %d" % (same_row, rng.randint(1, cur["m"])))
             n, m = cur["n"], cur["m"]
             keys = [rng.randint(1, n) for _ in range(rng.randint(1, 4))]
             okeys = [rng.randint(1, m) for _ in range(rng.randint(1, 3))]
@@ -576,9 +584,51 @@ ENSURING = ["solve", "residuals", "trans_VWV", "degrees_of_freedom", "unknowns_c
 # `null_space` is in the harness but not generated: with passive observations it strips the network point by
 # point (known finding F7) down to empty matrices
 NET_ALGS = ["gso", "svd", "cholesky", "envelope"]
+# round 4 (seeded/C04-seed4): composite members of the free-network oracle (harness: solve() first, then the standard
+# deviations of the unknowns / the error ellipses / the inner-constraint sums over the constrained points)
+FREE_Q = ["adjusted_stdevs", "adjusted_ellipses", "inner_constraints"]
+
+
+def gen_free_net_history(rng, maxlen, workdir, idx):
+    """a FREE 2-D network (no fixed point: defect 3) regularised over a proper, non-empty subset of its points
+    (adj="XY"), and a history that switches the algorithm (to every algorithm, also the same one) between queries of
+    coordinates / standard deviations / ellipses; every answer is compared with a fresh network configured with the
+    current algorithm, and the corrections of the constrained points must satisfy the inner constraints"""
+    npts = rng.randint(5, 6)
+    ids = None
+    net = gen_net.make_network(rng, npts=npts, dim=2, nfixed=0, noise=1.0, free=True, constrained=[], density=0.9)
+    ids = list(net["points"])
+    cons = rng.sample(ids, rng.randint(2, npts - 1))
+    for pid in ids:
+        net["points"][pid]["status"] = "con" if pid in cons else "adj"
+    net["free_constrained"] = len(cons)
+    alg = rng.choice(NET_ALGS)
+    path = workdir / f"n{idx}.gkf"
+    path.write_text(gen_net.to_gkf(net, algorithm=alg))
+    ops = [f"load {path}", "flags"]
+    qs = [rng.choice(["solve"] + FREE_Q)]
+    todo = NET_ALGS + [alg]
+    rng.shuffle(todo)
+    for _ in range(rng.randint(4, maxlen)):
+        r = rng.random()
+        if r < 0.30 or (todo and r < 0.40):
+            a = todo.pop() if todo else rng.choice(NET_ALGS)
+            qs.append("set_algorithm " + a)
+            qs.append(rng.choice(["solve"] + FREE_Q))           # the first question to the NEW solver object
+        elif r < 0.80:
+            qs.append(rng.choice(["solve", "residuals", "trans_VWV"] + FREE_Q + FREE_Q))
+        elif r < 0.88:
+            qs.append("chg_xyz %d %s" % (rng.randint(1, npts), float2hex(rng.choice([0.5, 1.0, -1.5]))))
+        elif r < 0.94:
+            qs.append(rng.choice(["update_points", "update_observations", "update_residuals", "update_adjustment"]))
+        else:
+            qs.append("project_equations")
+    return net, alg, ops, qs
 
 
 def gen_net_history(rng, maxlen, workdir, idx):
+    if rng.random() < 0.30:
+        return gen_free_net_history(rng, maxlen, workdir, idx)
     if rng.random() < 0.35:
         net = gen_net.levelling_network(rng, npts=rng.randint(4, 7), nfixed=1, extra=rng.randint(2, 4), noise=1.0)
         nobs = len(net["obs"][0]["items"])
@@ -640,7 +690,7 @@ def net_interleave(qs):
     for q in qs:
         lines.append(q)
         lines.append("flags")
-        if q.split()[0] in ENSURING or q.startswith("raw "):
+        if q.split()[0] in ENSURING or q.split()[0] in FREE_Q or q.startswith("raw "):
             lines.append("fresh " + q)
     return lines
 
@@ -673,8 +723,8 @@ def run_net_cascade(ctx, corr, n=None, maxlen=None):
             mc.append(("remove_huge " + ol.split()[1]) if (l == "remove_huge" and ol.startswith("huge ")) else
                       ("load -" if l.startswith("load ") else
                        "is_adjusted" if (l.startswith("raw ") and ol == "undefined") else      # harness did not call it
-                       (l + " !") if ((l in ENSURING or l == "refine" or l.startswith("raw ")) and ol.startswith("throw matvec")) else
-                       (l + " !local") if ((l in ENSURING or l == "refine" or l.startswith("raw ")) and ol.startswith("throw local")) else l))
+                       (l + " !") if ((l in ENSURING or l in FREE_Q or l == "refine" or l.startswith("raw ")) and ol.startswith("throw matvec")) else
+                       (l + " !local") if ((l in ENSURING or l in FREE_Q or l == "refine" or l.startswith("raw ")) and ol.startswith("throw local")) else l))
         mcases.append(mc)
     model, _ = run_cases(drv, mcases, timeout=1800)
     raw_probes = raw_stale = 0
@@ -684,6 +734,9 @@ def run_net_cascade(ctx, corr, n=None, maxlen=None):
         corr.case(key=" ".join(c[1:]) if chg >= 2 else None,
                   sample={"net_alg": alg, "history": qs[:14], "impl": a[:10]} if corr_first(corr, "net_sample") else None)
         corr.count("net_hist")
+        if isinstance(net, dict) and net.get("free_constrained"):
+            corr.count("net_free_networks_with_constrained_subset")
+            corr.count("net_free_set_algorithm", sum(1 for q in qs if q.startswith("set_algorithm")))
         corr.count("net_ops", len(qs))
         corr.count("net_config_changes", chg)
         if i in crashes:
@@ -717,6 +770,20 @@ def run_net_cascade(ctx, corr, n=None, maxlen=None):
                     lo = max(0, k - 4)
                     corr.disagree("netstate", c, [f"{c[j]} -> {a[j]}" for j in range(lo, k + 1)],
                                   [f"{c[j]} -> {b[j]}" for j in range(lo, k + 1)], f"flags differ after op #{k - 1} '{c[k - 1]}'")
+            elif l == "inner_constraints" and a[k].startswith("vec ") and not outside:
+                # independent reference (no fresh object involved): the corrections of the constrained points of a free
+                # network are orthogonal to the translations and to the rotation restricted to these points
+                v = [hex2float(t) for t in a[k].split()[1:]]
+                corr.count("net_inner_constraint_checks")
+                if len(v) == 5 and v[4] >= 2:
+                    scale = max(v[3], 1e-9)
+                    if max(abs(v[0]), abs(v[1])) > 1e-6 * scale + 1e-9 or abs(v[2]) > 1e-5 * scale + 1e-9:
+                        corr.fail(f"free network: the corrections of the {int(v[4])} constrained points violate the inner constraints "
+                                  f"(sum dx {v[0]:.3e}, sum dy {v[1]:.3e}, rotation {v[2]:.3e}, sum |d| {v[3]:.3e}): "
+                                  "the solver did not regularise over the constrained points",
+                                  {"stream": "netstate", "ops": c[:k + 1], "gkf": _gkf(net, alg)},
+                                  "LocalNetwork::project_equations", a[k])
+                        break
             elif l.startswith("fresh "):
                 q = l[6:]
                 got, fr, verdict = a[k - 2], a[k], b[k - 2]
